@@ -183,7 +183,104 @@ def usable(rec):
     return not (f & 2048) and rec["mapq"] >= 20 and not (f & 256) and not (f & 4)
 
 
-def detected_reads(case, files, sample, chrom, idxs, regions, vs=None, cache=None):
+def truth_q(o, t, i):
+    """quality of the allele the generator put on variant i of record t: 30 with a reference (constant of `realign`), else the
+    base quality at the variant (`vq` of the records with per-base qualities, else the record's uniform quality)"""
+    if not o.get("no_reference"):
+        return 30
+    for j, q in t.get("vq") or []:
+        if j == i:
+            return q
+    return t["qual"]
+
+
+def model_source(bam, chrom):
+    """the alignment records of the contig as pysam delivers them (independent of whatshap), in the shape of `c10.detect`"""
+    import pysam
+    tag = lambda a, t, d: a.get_tag(t) if a.has_tag(t) else d
+    with pysam.AlignmentFile(bam) as af:
+        rgs = [[g["ID"], g.get("SM")] for g in af.header.to_dict().get("RG", [])]
+        alns = []
+        for a in af.fetch(chrom):
+            ps = tag(a, "PS", -1)
+            try:
+                ps = int(ps)
+            except ValueError:
+                ps = None
+            alns.append({"name": a.query_name, "flag": a.flag, "mapq": a.mapping_quality, "rg": tag(a, "RG", None), "start": a.reference_start,
+                         "cigar": [list(x) for x in a.cigartuples] if a.cigartuples else None, "query": a.query_sequence,
+                         "quals": list(a.query_qualities) if a.query_qualities is not None else None,
+                         "bx": tag(a, "BX", ""), "hp": tag(a, "HP", -1), "ps": ps,
+                         "end": a.reference_end})
+    return {"rgs": rgs, "alns": alns}
+
+
+def detect_correspondence(ctx, case, files, sample, chrom, vs, regions, reads):
+    """`c10.detect` (Model/C10Detect.lean: C06's reader configured as run_haplotag does) = the REAL reader:
+    (1) per alignment: what `_alignments_to_reads` yields on `_usable_alignments` (name, strand, span, alleles);
+    (2) per alignment of the BAM, alone: `alnAlleles` = the alleles of the yielded AlignedRead, [] when filtered / nothing detected;
+    (3) the reads of `PhasedInputReader.read` as a set keyed by name (read-set order is a hash order: seam)."""
+    from whatshap.variants import ReadSetReader
+    from whatshap.core import NumericSampleIds
+    from whatshap.utils import IndexedFasta
+    fa, _, bam = files
+    o = case["opts"]
+    irg = bool(o.get("ignore_read_groups"))
+    noref = bool(o.get("no_reference"))
+    try:
+        vjson = [[v.position, v.reference_allele, [v.alternative_allele]] for v in vs]
+    except AttributeError:
+        return
+    bam_sample = None if irg else sample
+    impl_alns, impl_err = None, None
+    reader = ReadSetReader([bam], None if noref else fa, NumericSampleIds(), duplicates=True)
+    try:
+        try:
+            refseq = None if noref else IndexedFasta(fa)[chrom]
+            usable_ = reader._usable_alignments(chrom, bam_sample, regions)
+            impl_alns = [[a.read.name, bool(a.is_supplementary), bool(a.is_reverse), a.reference_start, a.reference_end,
+                          [[v.position, v.allele, v.quality] for v in a.read]]
+                         for a in reader._alignments_to_reads(usable_, vs, bam_sample, refseq, None)]
+        except Exception as e:
+            impl_err = type(e).__name__
+    finally:
+        reader.close()
+    src = model_source(bam, chrom)
+    ends = [a.pop("end") for a in src["alns"]]
+    m = ctx.model.ask(op="c10.detect", sources=[src], ignoreRG=irg, sample=sample, regions=[list(r) for r in regions] if regions is not None else None,
+                      variants=vjson, reference=None if noref else case["contigs"][chrom])
+    ctx.evaluated()
+    where = {"chrom": chrom, "sample": sample, "regions": regions, "opts": o, "variants": vjson}
+    ctx.dist("c10.detect", ("error " + str(impl_err)) if impl_err else f"{'no-reference' if noref else 'reference'}, {min(len(impl_alns), 20) // 5 * 5}+ alignments with alleles")
+    if impl_err is not None or m.get("alnsErr") is not None:
+        if impl_err != m.get("alnsErr"):
+            ctx.disagree("c10.detect/error", where, impl_err, m.get("alnsErr"))
+        return
+    if impl_alns != m.get("alns"):
+        diff = [(a, b) for a, b in zip(impl_alns, m.get("alns") or []) if a != b][:3]
+        ctx.disagree("c10.detect/alignments", where, {"n": len(impl_alns), "first": diff or impl_alns[:3]}, {"n": len(m.get("alns") or []), "first": (m.get("alns") or [])[:3]})
+        return
+    # (2) every alignment on its own
+    it, each = 0, []
+    for a, end in zip(src["alns"], ends):
+        exp = []
+        if it < len(impl_alns):
+            y = impl_alns[it]
+            if (y[0], y[1], y[2], y[3], y[4]) == (a["name"], bool(a["flag"] & 2048), bool(a["flag"] & 16), a["start"], end) and \
+                    (regions is None or any(overlaps({"start": a["start"], "end": end}, r) for r in regions)):
+                exp = y[5]; it += 1
+        each.append(exp)
+    if regions is None and each != m.get("each"):
+        k = next((i for i, (x, y) in enumerate(zip(each, m.get("each") or [])) if x != y), None)
+        ctx.disagree("c10.detect/alignment-alone", dict(where, aln=src["alns"][k] if k is not None else None), each[k] if k is not None else len(each),
+                     (m.get("each") or [None])[k] if k is not None else len(m.get("each") or []))
+        return
+    # (3) the reads
+    if sorted(reads) != sorted(m.get("reads") or [], key=lambda r: r[:2]) and sorted(map(json.dumps, reads)) != sorted(map(json.dumps, m.get("reads") or [])):
+        ctx.disagree("c10.detect/reads", where, sorted(map(json.dumps, reads))[:4], sorted(map(json.dumps, m.get("reads") or []))[:4])
+
+
+def detected_reads(case, files, sample, chrom, idxs, regions, vs=None, cache=None, ctx=None):
     """(b) what whatshap itself detects: the ReadSet of PhasedInputReader, in read-set order.
     vs: the variant objects to use (default: built from the case's variant list, indices idxs)"""
     from whatshap.cli import PhasedInputReader
@@ -207,6 +304,8 @@ def detected_reads(case, files, sample, chrom, idxs, regions, vs=None, cache=Non
                         [[v.position, v.allele, v.quality] for v in r]])
     if cache is not None:
         cache[key] = out
+    if ctx is not None:
+        detect_correspondence(ctx, case, files, sample, chrom, vs, regions, out)
     return out
 
 
@@ -239,8 +338,7 @@ def truth_groups(case, inrecs, truth_of, sample, chrom, idxs, regions, per_regio
             ptr += 1
         floor = var_pos[ptr] if ptr < len(var_pos) else None
         t = truth_of[k]
-        q = 30 if not o.get("no_reference") else t["qual"]
-        rvs = [[case["variants"][chrom][i]["pos"], a, q] for i, a in t["truth"]
+        rvs = [[case["variants"][chrom][i]["pos"], a, truth_q(o, t, i)] for i, a in t["truth"]
                if case["variants"][chrom][i]["pos"] in pos_ok and floor is not None and case["variants"][chrom][i]["pos"] >= floor]
         if not rvs:
             continue
@@ -350,8 +448,7 @@ def shared_name_reads_check(ctx, case, slim, chrom, regs, used, inrecs, exp_idx,
             if usable(rec):
                 idxs = set(sample_variants(case, sa, chrom, regs))
                 info = phase_info(case, sa, chrom, sorted(idxs), swap)
-                q = 30 if not o.get("no_reference") else t["qual"]
-                rvs = [[case["variants"][chrom][i]["pos"], a, q] for i, a in t["truth"] if i in idxs]
+                rvs = [[case["variants"][chrom][i]["pos"], a, truth_q(o, t, i)] for i, a in t["truth"] if i in idxs]
                 exp = decide_read(case["ploidy"], info, rvs)
                 why = "scores %s" % {ps: sc for ps, sc in agree_scores(case["ploidy"], info, sorted(rvs)).items()}
         judged += 1
@@ -395,8 +492,7 @@ def boundary_reads_check(ctx, case, slim, chrom, regs, used, inrecs, exp_idx, id
             s = owners[0]
             idxs = set(sample_variants(case, s, chrom, regs))
             info = phase_info(case, s, chrom, sorted(idxs), swap)
-            q = 30 if not o.get("no_reference") else t["qual"]
-            rvs = [[case["variants"][chrom][i]["pos"], a, q] for i, a in t["truth"] if i in idxs]
+            rvs = [[case["variants"][chrom][i]["pos"], a, truth_q(o, t, i)] for i, a in t["truth"] if i in idxs]
             exp = decide_read(case["ploidy"], info, rvs)
             without = decide_read(case["ploidy"], info, [v for v in rvs if v[0] not in b["pos"]])
         if swap is None:
@@ -411,6 +507,73 @@ def boundary_reads_check(ctx, case, slim, chrom, regs, used, inrecs, exp_idx, id
                      f"its {where} is exactly a phased heterozygous {'SNV' if b.get('snv', True) else 'variant (first base = anchor of an indel)'}; the read carries alleles {sorted(rvs)} (position, allele, quality), "
                      f"the best-agreeing haplotype gives HP/PC/PS {list(exp)} (without the boundary variant: {list(without)}), haplotag wrote {list(rec['tagvals'])}",
                      slim, key="boundary-variant")
+
+
+def merge_observations(records):
+    """what `create_read_from_group` documents for the alignments of one read (in file order): a variant seen by several
+    alignments with the SAME allele is ONE observation (the unchanged code keeps the Variant object inserted first, i.e. the
+    quality of the first alignment in file order); a variant on which they show different alleles is dropped.  Plain Python"""
+    seen, conflict = {}, set()
+    for rvs in records:
+        for pos, allele, q in rvs:
+            if pos in seen:
+                if seen[pos][0] != allele:
+                    conflict.add(pos)
+            else:
+                seen[pos] = (allele, q)
+    return sorted([p, a, q] for p, (a, q) in seen.items() if p not in conflict)
+
+
+def overlapping_mates_check(ctx, case, slim, chrom, regs, used, inrecs, exp_idx, idx_exp, cur, truth_of, swap):
+    """Read pairs whose mates overlap each other on a phased heterozygous SNV (generator stream `add_overlapping_mates`, seed
+    C10-h).  Expected tag of BOTH mates, from the generator's truth alone (no reader output, no Lean): the observations of the
+    two mates merged as documented (`merge_observations`), then the best-agreeing haplotype (`decide_read`).  A pair primary +
+    supplementary: the supplementary record contributes nothing (haplotag's reader drops it), and is written with the primary's
+    tag exactly with --tag-supplementary."""
+    o = case["opts"]
+    per_name = records_per_read(case, inrecs)
+    pairs = {}
+    for k in idx_exp:
+        t = truth_of[exp_idx[k]]
+        if t.get("ovl"):
+            pairs.setdefault(t["ovl"]["pair"], []).append(k)
+    for pid, ks in sorted(pairs.items()):
+        if len(ks) != 2:
+            continue                      # one record outside the requested regions
+        ks.sort()
+        recs = [cur[k] for k in ks]
+        ts = [truth_of[exp_idx[k]] for k in ks]
+        ov = ts[0]["ovl"]
+        if per_name.get(read_key(case, recs[0]), 0) != 2:
+            continue
+        owners = [s for s in used if o.get("ignore_read_groups") or recs[0]["rg"] in rg_ids(case, s)]
+        if len(owners) > 1:
+            continue
+        exp, merged, each = (None, None, None), [], []
+        if owners:
+            s = owners[0]
+            idxs = set(sample_variants(case, s, chrom, regs))
+            info = phase_info(case, s, chrom, sorted(idxs), swap)
+            each = [[[case["variants"][chrom][i]["pos"], a, truth_q(o, t, i)] for i, a in t["truth"] if i in idxs]
+                    for rec, t in zip(recs, ts) if usable(rec)]
+            merged = merge_observations(each)
+            exp = decide_read(case["ploidy"], info, merged)
+        if swap is None:
+            ctx.dist("overlapping_mates_kind", ov["kind"]); ctx.dist("overlapping_mates_quality", ov["qmode"] if o.get("no_reference") else "constant 30 (--reference)")
+            both = [p for p in {v[0] for v in each[0]} & {v[0] for v in each[1]}] if len(each) == 2 else []
+            ctx.dist("overlapping_mates_doubly_covered", "none" if not both else "same allele, different quality" if any(
+                a[1] == b[1] and a[2] != b[2] for a in each[0] for b in each[1] if a[0] == b[0]) else "other")
+            ctx.dist("overlapping_mates_expected", "untagged" if exp[0] is None else "tagged")
+        for rec in recs:
+            want = exp
+            if rec["flag"] & 2048:
+                want = exp if o.get("tag_supplementary") else (None, None, None)
+            if tuple(rec["tagvals"]) != want:
+                ctx.fail(f"{'exchanged VCF, ' if swap else ''}{chrom} {rec['name']} (flag {rec['flag']}, start {rec['start'] + 1}, {'--no-reference' if o.get('no_reference') else '--reference'}): "
+                         f"the two records of this read overlap each other at position {ov['x'] + 1} ({ov['kind']}); they carry {each} (position, allele, quality) per record, merged "
+                         f"(agreeing alleles = one observation, conflicting = none) {merged}; the best-agreeing haplotype gives HP/PC/PS {list(want)}, "
+                         f"haplotag wrote {list(rec['tagvals'])}", slim, key="overlapping-mates")
+                break
 
 
 # ------------------------------------------------------------------------------------------------
@@ -583,7 +746,7 @@ def model_run_check(ctx, case, files, inrecs, outrecs, exp_idx, lines, regions, 
             continue
         for s in used:
             rows, variants = t[s]
-            reads_of[(chrom, s)] = detected_reads(case, files, s, chrom, None, sel[chrom], vs=variants, cache=det_cache)
+            reads_of[(chrom, s)] = detected_reads(case, files, s, chrom, None, sel[chrom], vs=variants, cache=det_cache, ctx=ctx)
     impl_written = [[*pos_of[k], *outrecs[j]["tagvals"]] for j, k in enumerate(exp_idx) if inrecs[k]["chrom"] is not None]
     n_tail_out = sum(1 for k in exp_idx if inrecs[k]["chrom"] is None)
     n_tail_in = sum(1 for r in inrecs if r["chrom"] is None)
@@ -837,7 +1000,7 @@ def run_case(ctx, case, d):
                     idxs = sample_variants(case, s, chrom, regs)
                     info = phase_info(case, s, chrom, idxs, swap)
                     if mode == "detected":
-                        reads = detected_reads(case, files, s, chrom, idxs, regs, cache=det_cache) if not swapped else final[("reads", "detected", chrom, s)]
+                        reads = detected_reads(case, files, s, chrom, idxs, regs, cache=det_cache, ctx=ctx) if not swapped else final[("reads", "detected", chrom, s)]
                         final[("reads", "detected", chrom, s)] = reads
                     else:
                         order, groups, bx = truth_groups(case, inrecs, truth_of, s, chrom, idxs, regs, per_region=(mode == "truth_per_region"))
@@ -911,6 +1074,7 @@ def run_case(ctx, case, d):
             shared_name_reads_check(ctx, case, slim, chrom, regs, used, inrecs, exp_idx, idx_exp, cur, truth_of, swap, shared_names)
             # ---- boundary reads against the generator's truth (Python only)
             boundary_reads_check(ctx, case, slim, chrom, regs, used, inrecs, exp_idx, idx_exp, cur, truth_of, swap)
+            overlapping_mates_check(ctx, case, slim, chrom, regs, used, inrecs, exp_idx, idx_exp, cur, truth_of, swap)
             # ---- correspondence with the Lean model
             for mode, a in zip(MODES[:2], ans):
                 if "error" in a and a.get("tags") is None:
@@ -1005,6 +1169,8 @@ def run(ctx):
             force = {}
             if i % 6 == 1:
                 force["ploidy"] = 3 + (i // 6) % 2
+            if i % 5 == 3:
+                force["no_reference"] = True       # base qualities are allele qualities only without a reference (seed C10-h)
             if i % 4 == 2:
                 force["name_scheme"] = "per-sample" if i % 8 == 2 else "run-prefixed"      # only takes effect with reads of several samples
             case = c10_gen.gen_case(ctx.rng, size=1.0 if ctx.quick else ctx.rng.choice([1.0, 1.0, 2.0]), force=force)
